@@ -4,7 +4,7 @@ LEVEL = 'exploration'
 RULE = ('(1) every idle function of a ~10k-function population (quick: 2000 from a seed-chosen start) is patched with the real PtrTrampoline/Apply/Unpatch '
         'and the whole text image is diffed against the pristine copy after each step, page permissions read from /proc/self/maps; (2) synthetic functions '
         'of 6-40 bytes followed by padding or directly by another function at every entry offset in the last 40 bytes of a page; (2a) pairs of tiny functions 14-32 bytes apart, both mocked and un-mocked in five orders, image compared with a byte model after every install and removal; (2c) padded placeholders filled to their last padding byte by a first trampoline and then handed to a target that needs more room; (3) memory.WriteTo sweeps '
-        'over offsets -64..+8 around three page boundaries x lengths 1..80 and ~1-2 pages; (3b) six goroutines writing disjoint ranges of two pages (one straddling) through the text writer at once; (4) the same binary re-run under strace: every mprotect event on '
+        'over offsets -64..+8 around three page boundaries x lengths 1..80 and ~1-2 pages; (3b) six goroutines writing disjoint ranges of two pages (one straddling) through the text writer at once; (3c) the page-boundary write sweep and installs/removals of the entry jump at every entry offset of the last 16 bytes of a page again in a child whose seccomp filter refuses PROT_WRITE|PROT_EXEC (the text writer then takes its other route); (4) the same binary re-run under strace: every mprotect event on '
         'image/synthetic pages must carry PROT_EXEC and the last one per page must be R|X; distinct = (part, size class, page-offset / straddle / pages-touched) classes')
 
 
@@ -16,6 +16,9 @@ def run(ctx):
     b = ctx.build('c14', core.MODPATH + '/internal/patch', files)
     ch = ctx.child(b, run='TestC14$', timeout=1200)
     ctx.absorb(ch, what='TestC14')
+    # the same boundary sweeps under a process-wide W^X policy (seccomp filter; irrevocable, hence its own child)
+    chw = ctx.child(b, run='TestC14WXDenied$', timeout=600, label='wx-denied')
+    ctx.absorb(chw, what='TestC14WXDenied')
     # strace pass
     slog = os.path.join(ctx.scratch, 'strace.log')
     ch2 = ctx.child(b, run='TestC14$', timeout=1200, env={'VERIF_C14_LIGHT': '1'},
